@@ -809,6 +809,9 @@ func runC03(c *runCtx) error {
 	}
 	// ---------------- part D: ORDER BY / GROUP BY against the composed twin; directed classes
 	c03w2Stream(e, r, thorough)
+	// ---------------- part E: the evaluation discipline of the AggregatePlan (which expression on
+	// which pair, when a group's row is completed)
+	c3zStream(e, r, thorough)
 	return e.flush()
 }
 
@@ -1268,5 +1271,82 @@ func c03w2Stream(e *emitter, r *rng, thorough bool) {
 	}
 	for _, q := range aliasStmts {
 		c03StmtCase(e, q, c03w2IntStore(r, 11, 0, 6), 3, true, 0, "class2: alias referenced >= 3 times, cache on")
+	}
+}
+
+// ------------------------------------------------------------------ part E (c3z): the evaluation discipline
+// of the AggregatePlan against the composed twin (Model/AggregateLazy.v).  Statements in which an
+// evaluation the Go code SKIPS would fail: a non-aggregate field on a later pair of its group
+// (`group by g, g` admits a select field that is no GROUP BY field), the argument of count, a
+// group whose completion fails beyond what a pushed-down LIMIT consumes; and statements in which
+// the two modes meet different errors first (GROUP BY values of a whole chunk before the chunk's
+// first aggregate argument).  The twin must return Go's rows / Go's error class and position in
+// both modes (code 1 otherwise); batch completed and row mode failed is code 2 as everywhere.
+
+// c3zStore: keys a1, a2, ..., b1, ...: [groups] first letters with 1..per pairs each; values 1..6
+// (the statements below fail on the values 1, 3, 4, 6 in different places)
+func c3zStore(r *rng, groups, per int) [][2]string {
+	kvs := [][2]string{}
+	for g := 0; g < groups; g++ {
+		n := 1 + r.intn(per)
+		for j := 1; j <= n; j++ {
+			kvs = append(kvs, [2]string{fmt.Sprintf("%c%d", 'a'+g, j), fmt.Sprint(1 + r.intn(6))})
+		}
+	}
+	return kvs
+}
+
+func c3zStream(e *emitter, r *rng, thorough bool) {
+	type st struct{ q, bucket string }
+	keyF := "c3z: non-aggregate field fails on a later pair of its group"
+	cntF := "c3z: count() over a failing argument"
+	finF := "c3z: completion fails for some groups"
+	errF := "c3z: the modes meet different errors"
+	stmts := []st{
+		{"select substr(key, 0, 1) as g, 10 / (int(value) - 3) as x, count(1) as c where key != 'zzzz' group by g, g", keyF},
+		{"select 10 / (int(value) - 3) as x, substr(key, 0, 1) as g, sum(int(value)) as s, count(1) as c where key != 'zzzz' group by g, g limit 1, 2", keyF},
+		{"select substr(key, 0, 1) as g, 10 / (int(value) - 3) as x, max(int(value)) as m where key != 'zzzz' group by g, g order by g desc", keyF},
+		{"select substr(key, 0, 1) as g, 10 / (int(value) - 3) as x, min(int(value)) as m where key != 'zzzz' group by g, g order by g desc limit 1, 2", keyF},
+		{"select substr(key, 0, 1) as g, count(10 / (int(value) - 3)) as c, sum(int(value)) as s where key != 'zzzz' group by g", cntF},
+		{"select count(10 / (int(value) - 3)) as c, max(int(value)) as m where key != 'zzzz'", cntF},
+		{"select substr(key, 0, 1) as g, count(10 / (int(value) - 3)) + 1 as c where int(value) > 1 group by g limit 0, 2", cntF},
+		{"select substr(key, 0, 1) as g, count(10 / (int(value) - 3)) as c, sum(10 / (int(value) - 4)) as s where key != 'zzzz' group by g", cntF},
+		{"select substr(key, 0, 1) as g, 10 / (int(value) - 3) as x, count(10 / (int(value) - 4)) as c where 10 / (int(value) - 6) != 7 group by g, g", cntF},
+		{"select substr(key, 0, 1) as g, 10 / (count(1) - 2) as x, sum(int(value)) as s where key != 'zzzz' group by g", finF},
+		{"select substr(key, 0, 1) as g, 10 / (count(1) - 2) as x where key != 'zzzz' group by g order by g desc", finF},
+		{"select substr(key, 0, 1) as g, 10 / (count(1) - 2) as x where key != 'zzzz' group by g order by g limit 0, 1", finF},
+		{"select 10 / (int(value) - 1) as g, sum(10 / (int(value) - 3)) as s where key != 'zzzz' group by g", errF},
+		{"select 10 / (int(value) - 1) as g, 10 / (int(value) - 3) as x, sum(10 / (int(value) - 4)) as s where 10 / (int(value) - 6) != 7 group by g, g", errF},
+	}
+	limits := [][2]int{{0, 1}, {1, 1}, {0, 2}, {1, 2}, {2, 1}, {2, 3}, {0, 0}, {1, 0}, {3, 2}, {0, 9}}
+	for _, l := range limits {
+		stmts = append(stmts, st{fmt.Sprintf("select substr(key, 0, 1) as g, 10 / (count(1) - 2) as x, sum(int(value)) as s where key != 'zzzz' group by g limit %d, %d", l[0], l[1]), finF + ", LIMIT pushed down"})
+	}
+	reps := 2
+	if thorough {
+		reps = 12
+	}
+	for _, B := range []int{1, 2, 3, 5} {
+		for _, s := range stmts {
+			for k := 0; k < reps; k++ {
+				c03w2Case(e, s.q, c3zStore(r, 1+r.intn(5), 1+r.intn(4)), B, 0, s.bucket)
+			}
+		}
+	}
+	// fixed stores: the failing value on the first pair of a group / on a later pair only / nowhere
+	fixed := [][][2]string{
+		{{"a1", "1"}, {"a2", "3"}, {"b1", "2"}, {"b2", "4"}, {"b3", "3"}, {"c1", "5"}, {"c2", "6"}},
+		{{"a1", "3"}, {"a2", "2"}, {"b1", "2"}},
+		{{"a1", "2"}, {"a2", "2"}, {"b1", "5"}, {"c1", "2"}, {"c2", "3"}, {"d1", "2"}},
+		{{"a1", "2"}, {"b1", "2"}, {"b2", "5"}, {"c1", "5"}, {"d1", "2"}, {"d2", "2"}, {"e1", "5"}},
+		{{"a1", "3"}, {"a2", "1"}, {"a3", "5"}},
+		{},
+	}
+	for _, kvs := range fixed {
+		for _, s := range stmts {
+			for _, B := range []int{1, 2, 3} {
+				c03w2Case(e, s.q, kvs, B, 0, s.bucket)
+			}
+		}
 	}
 }
